@@ -1000,6 +1000,46 @@ func (e *env) checkGet(prop, ni string, all bool, t spb.AFTType) (Snapshot, []*s
 	return snap, rs
 }
 
+// checkGetAgainstImpl issues a Get of the given scope at a quiescent point and compares it with the
+// implementation's own installed entries (hook), not with a model: usable after concurrent runs. In
+// particular a Get of a shape that was issued WHILE the RIB was being modified must not have left
+// anything behind that makes an identical later Get differ from what is installed.
+func (e *env) checkGetAgainstImpl(props []string, ni string, all bool, t spb.AFTType, when string) {
+	rs, err := e.doGet(ni, all, t)
+	scope := fmt.Sprintf("Get(ni=%q all=%v aft=%s) %s", ni, all, t, when)
+	impl := e.implSnapshot()
+	if impl == nil {
+		return
+	}
+	want := Snapshot{}
+	kind := kindOfAFT(t)
+	for k, v := range impl {
+		if (all || k.NI == ni) && (kind < 0 || k.Kind == Kind(kind)) {
+			want[k] = v
+		}
+	}
+	e.checkpoint(func() {
+		for _, prop := range props {
+			if err != nil {
+				e.report(prop, "get-error", "Get of a valid scope failed", scope+": "+err.Error(), false)
+				continue
+			}
+			snap, dup, serr := snapFromGet(rs)
+			if serr != nil {
+				e.report(prop, "get-bad-entry", "entry without payload", scope+": "+serr.Error(), false)
+				continue
+			}
+			if len(dup) > 0 {
+				e.report(prop, "get-duplicate", "entry returned twice", fmt.Sprintf("%s: %v", scope, dup), false)
+			}
+			for _, d := range diffSnap(want, snap) {
+				e.report(prop, "get-differs-from-rib", "a Get at quiescence differs from the installed entries ("+d.What+")", scope+": "+d.String(), false)
+			}
+		}
+	})
+	e.probe("quiescent Get compared with the installed entries")
+}
+
 // fullGetCheck compares Gets with the model. level 0: Get(all, ALL); level 1:
 // every network instance and all, table ALL; level 2: every (network instance |
 // all) x (table | ALL), ALL == disjoint union of the per-table Gets, and the
